@@ -67,6 +67,8 @@ Section CSparse.
     match k with
     | O => V
     | S k' =>
+        (* "if((res.re==0) && (res.im==0)) break;" *)
+        if ceqb A res (azero C) then V else
         let U := multAPPA L P in
         let pAp := cconjdot P U in
         let del := cdiv A res pAp in
@@ -116,6 +118,9 @@ Section CSparse.
   Definition pbcg (fuel : nat) (L : clin) (V0 : cvec) : cvec * nat * nat :=
     let R0 := map (fun '(b, r) => csub A b r) (combine (cb L) (cmultA L V0)) in
     let normb := cnrm (cb L) in
+    let er0 := adiv A (cnrm R0) normb in
+    (* "if(!(er>Precision)) return 1;" *)
+    if negb (altb A (cprec L) er0) then (V0, 0, 1) else
     let Z := cmultPC L R0 in
     let '(s, it, ok) := bicg_loop fuel L normb (mkB V0 Z R0 (cdot Z R0)) 0 in
     (bV s, it, if ok then 1 else 2).
